@@ -30,6 +30,8 @@ type AcctInfo struct {
 	DupKey bool   // another account of the population holds the same key: addressing by key is ambiguous
 	// Composite is set for an account of a distributed wallet: the validator's key, of which PubKey is this instance's share.
 	Composite []byte
+	// Batched: the account lives in a batched wallet and opens with BatchPassphrase.
+	Batched bool
 	idx       int
 }
 
@@ -78,7 +80,12 @@ type WalletSpec struct {
 	// SameKeyAs: account name -> path of an account created earlier whose key this account holds as well (a key
 	// imported a second time, under another name or into another wallet).
 	SameKeyAs map[string]string
+	// BatchPass: the wallet's accounts are batched under this passphrase after creation.
+	BatchPass string
 }
+
+// BatchPassphrase opens the batched wallets of the populations.
+const BatchPassphrase = "the batch passphrase"
 
 // NewPopulation builds wallets and accounts in a fresh scratch store.
 func NewPopulation(t *testing.T, tag string, specs []WalletSpec) *Population {
@@ -169,6 +176,16 @@ func newPopulationOn(t *testing.T, tag string, specs []WalletSpec, store e2wtype
 			p.byPath[info.Path] = info
 			n++
 		}
+		if spec.BatchPass != "" {
+			// "ethdo wallet batch": the accounts, opened with their own passphrase, are stored once more as one blob under one
+			// passphrase; the wallet serves them from that blob from then on.
+			if err := w.(e2wtypes.WalletBatchCreator).BatchWallet(ctx, []string{"pass"}, spec.BatchPass); err != nil {
+				panic(err)
+			}
+			for _, a := range p.Accts[len(p.Accts)-len(spec.Accounts):] {
+				a.Batched = true
+			}
+		}
 		if err := w.(e2wtypes.WalletLocker).Lock(ctx); err != nil {
 			panic(err)
 		}
@@ -236,9 +253,12 @@ func BigPopulation(t *testing.T) *Population {
 		}
 		// Account names may contain the path separator: these live beside "Big/V000" and "Big/V001".
 		w.Accounts = append(w.Accounts, "V000/1", "V001/a/b", "V000/2")
-		// ... and, last, a share of a threshold key in a distributed wallet (index len-1; batch generators that pick distinct
-		// keys from the front never reach it, runners that want it take it from the end)
-		bigPop = NewPopulation(t, "big", []WalletSpec{w, {Name: "BigShared", Kind: "distributed", Accounts: []string{"Shared validator"}}})
+		// ... then a batched wallet (its accounts open with the batch passphrase, the second of the two a default instance is
+		// configured with; they are not opened ahead of time, so each process meets the still-encrypted batch once) and, last, a
+		// share of a threshold key in a distributed wallet (index len-1: runners that want it take it from the end)
+		bigPop = NewPopulation(t, "big", []WalletSpec{w,
+			{Name: "BigBatch", Kind: "nd", Accounts: []string{"B0", "B1", "B2", "B3"}, BatchPass: BatchPassphrase},
+			{Name: "BigShared", Kind: "distributed", Accounts: []string{"Shared validator"}}})
 		bigPop.Shared = true
 	})
 	return bigPop
